@@ -8,8 +8,10 @@
    Part 3 (C04_step_lookahead_refines .. C04_lookahead_ex, for c_buffered = []): an Ok(0) met by the 16-byte look-ahead of
    the header peek (or the 8-byte one of the id peek) is not reported by the reader at all; it is harmless when the tag being
    read is already complete in the buffer — which is what a source that pauses at tag boundaries produces for tags shorter
-   than the look-ahead (Proofs/PausesLookahead.v).  A pause met while a payload is being read gives UnexpectedEof. *)
-From Ebml Require Import Base Tools Spec Reader Pure Proofs.Tactics Proofs.ReaderIO Proofs.Refine Proofs.Termination Proofs.Pauses Proofs.PausesLookahead.
+   than the look-ahead (Proofs/PausesLookahead.v).  A pause met while a payload is being read gives UnexpectedEof.
+   Part 4 (C04_step_calm_refines .. C04_io_error_ex): sources that FAIL.  Up to the moment the source error is reported the
+   buffered reader behaves exactly like the abstract reader (Proofs/RefineFail.v). *)
+From Ebml Require Import Base Tools Spec Reader Pure Proofs.Tactics Proofs.ReaderIO Proofs.Refine Proofs.NoPanic Proofs.Termination Proofs.Pauses Proofs.PausesLookahead Proofs.AuditIO Proofs.RefineFail.
 
 (* For every configuration (tolerances, size limit, buffered set, EOF closing), every input, every initial capacity
    (0 included) and every read script in which the source never reports Ok(0) before the end and never fails — any split of
@@ -237,3 +239,96 @@ Proof.
     do 6 (eapply drainL_item; [ok|vm_compute; reflexivity|reflexivity|]).
     apply drainL_end; [ok|right; intros t off; vm_compute; discriminate].
 Qed.
+
+(* ------------------------------------------------------------------ sources that fail *)
+(* [cnt st]: the number of entries of the unread script that are not calm (Fail, Pause, Chunk 0).  A call of next(), resp.
+   try_recover(), that consumes only calm entries of the script (the count is the same before and after) refines the abstract
+   reader, whatever the script holds further on (a Fail included); [WF st]: the cached lengths of the state are right *)
+Theorem C04_step_calm_refines : forall c st, WF st -> cnt (fst (next c st)) = cnt st ->
+  WF (fst (next c st)) /\ Abs (fst (next c st)) = fst (p_next c (Abs st)) /\ snd (next c st) = snd (p_next c (Abs st)).
+Proof. exact next_refines_calmstep. Qed.
+Theorem C04_recover_calm_refines : forall c st, WF st -> cnt (fst (try_recover c st)) = cnt st ->
+  WF (fst (try_recover c st)) /\ Abs (fst (try_recover c st)) = fst (p_try_recover c (Abs st)) /\
+  snd (try_recover c st) = snd (p_try_recover c (Abs st)).
+Proof. exact try_recover_refines_calmstep. Qed.
+
+(* the call of next() that consumes the Fail.  [InvF code rest st]: cached lengths right, no panic site reached, and the unread
+   script is pre ++ Fail code :: rest with pre calm.  If the call changes [cnt] (it consumed the Fail) and the abstract reader
+   reaches no panic site / budget end in the same call, then: the buffered call reaches none either, it returns the source
+   error itself, or it returns the same item as the abstract call and leaves the error queued behind items qa (none of them an
+   error) that the abstract reader has queued as well ([Rel], second alternative: [Q2]) *)
+Theorem C04_next_meets_fail : forall code rest c st, InvF code rest st -> b_bad (fst (p_next c (Abs st))) = None ->
+  (snd (next c st) = NErr (RIo code) /\ r_bad (fst (next c st)) = None) \/
+  (snd (next c st) = snd (p_next c (Abs st)) /\ r_bad (fst (next c st)) = None /\
+   Rel code rest (fst (next c st)) (fst (p_next c (Abs st)))).
+Proof. exact next_phase1. Qed.
+
+(* C04 for a failing source.  For every configuration, input, initial capacity, sequence of next()/try_recover()/drain calls
+   and every read script pre ++ Fail code :: rest in which every read before the failing one returns data while data remains
+   (calm pre; rest is arbitrary), provided the abstract run reports neither a panic nor budget exhaustion (C05: true on all
+   byte streams for specifications whose named parents are masters - C04_refines_until_io_error_wf), one of:
+   (i)   the buffered run equals the abstract run (the source error is not reported during these calls: the failing read is
+         not reached, or the calls end while the error is still queued behind Ends);
+   (ii)  the buffered run is common ++ [e] ++ tail where common is a prefix of the abstract run - the same items, offsets and
+         errors - and holds no source error, and e is the source error RIo code, returned by next() (OErr) or by
+         try_recover() (ORecErr): up to the moment it is reported, the failing source changes nothing.  Nothing is said
+         about tail (C05_after_io_error_unspecified);
+   (iii) try_recover() is called - it is the call after ops1 - while the source error is still queued (behind the items qa,
+         none of them an error): the outcomes of the calls ops1 are a prefix of the abstract run and hold no source error.
+         (The outcome of that try_recover() need not be the abstract one: C05_recover_while_io_error_queued.) *)
+Theorem C04_refines_until_io_error : forall c cap0 pre code rest input ops, calm pre ->
+  ~ In OPanic (p_run c input ops) -> ~ In OFuel (p_run c input ops) ->
+  run_reader c cap0 (pre ++ Fail code :: rest) input ops = p_run c input ops \/
+  (exists common e tail m,
+     run_reader c cap0 (pre ++ Fail code :: rest) input ops = common ++ [e] ++ tail /\
+     p_run c input ops = common ++ m /\ outs_io common = [] /\
+     (e = OErr (RIo code) \/ e = ORecErr (RIo code))) \/
+  (exists ops1 ops2 qa tail m, ops = ops1 ++ RRecover :: ops2 /\
+     r_queue (fst (run_reader_st c cap0 (pre ++ Fail code :: rest) input ops1)) = qa ++ [QErr (RIo code)] /\ noerr qa /\
+     run_reader c cap0 (pre ++ Fail code :: rest) input ops = run_reader c cap0 (pre ++ Fail code :: rest) input ops1 ++ tail /\
+     p_run c input ops = run_reader c cap0 (pre ++ Fail code :: rest) input ops1 ++ m /\
+     outs_io (run_reader c cap0 (pre ++ Fail code :: rest) input ops1) = []).
+Proof. exact refines_until_io_error. Qed.
+
+(* ... when try_recover() is not among the calls (next() and drains only), alternative (iii) does not arise *)
+Theorem C04_refines_until_io_error_next_only : forall c cap0 pre code rest input ops, calm pre ->
+  ~ In RRecover ops -> ~ In OPanic (p_run c input ops) -> ~ In OFuel (p_run c input ops) ->
+  run_reader c cap0 (pre ++ Fail code :: rest) input ops = p_run c input ops \/
+  (exists common e tail m,
+     run_reader c cap0 (pre ++ Fail code :: rest) input ops = common ++ [e] ++ tail /\
+     p_run c input ops = common ++ m /\ outs_io common = [] /\
+     (e = OErr (RIo code) \/ e = ORecErr (RIo code))).
+Proof. exact refines_until_io_error_next_only. Qed.
+
+(* ... and the side conditions hold for every specification whose named parents are masters (implied_ok: what Props/C18.v
+   proves of every derived specification) on every stream of bytes (wf_bytes: every element below 256) *)
+Theorem C04_refines_until_io_error_wf : forall c cap0 pre code rest input ops, calm pre -> implied_ok (c_sp c) -> wf_bytes input ->
+  run_reader c cap0 (pre ++ Fail code :: rest) input ops = p_run c input ops \/
+  (exists common e tail m,
+     run_reader c cap0 (pre ++ Fail code :: rest) input ops = common ++ [e] ++ tail /\
+     p_run c input ops = common ++ m /\ outs_io common = [] /\
+     (e = OErr (RIo code) \/ e = ORecErr (RIo code))) \/
+  (exists ops1 ops2 qa tail m, ops = ops1 ++ RRecover :: ops2 /\
+     r_queue (fst (run_reader_st c cap0 (pre ++ Fail code :: rest) input ops1)) = qa ++ [QErr (RIo code)] /\ noerr qa /\
+     run_reader c cap0 (pre ++ Fail code :: rest) input ops = run_reader c cap0 (pre ++ Fail code :: rest) input ops1 ++ tail /\
+     p_run c input ops = run_reader c cap0 (pre ++ Fail code :: rest) input ops1 ++ m /\
+     outs_io (run_reader c cap0 (pre ++ Fail code :: rest) input ops1) = []).
+Proof. exact refines_until_io_error_wf. Qed.
+
+(* non-vacuity of (ii), with items delivered between the failing read and its report.  Root{SInt}(5 bytes) Root{SInt 7}; the
+   source delivers the 18 bytes and then fails.  Unbuffered: the third next() closes the first Root and meets the failure
+   reading on; it returns the End - which the abstract reader yields there as well - and the error comes with the next call.
+   With Root buffered the first Root is delivered whole, then the error.  In both runs common has three resp. one outcome *)
+Example C04_io_error_ex :
+  let sp := [ {| e_id := 129; e_ty := DMaster; e_path := [] |}; {| e_id := 16641; e_ty := DSInt; e_path := [PId 129] |} ] in
+  let c := {| c_sp := sp; c_allow_id := false; c_allow_hier := false; c_allow_over := false; c_max := Some 4000000000; c_buffered := []; c_emit_eof := true |} in
+  let cb := {| c_sp := sp; c_allow_id := false; c_allow_hier := false; c_allow_over := false; c_max := Some 4000000000; c_buffered := [129]; c_emit_eof := true |} in
+  let doc := [129; 131; 65; 1; 128; 129; 139; 65; 1; 136; 0; 0; 0; 0; 0; 0; 0; 7] in
+  run_reader c 65536 [Chunk 18; Fail 9] doc [RAll] =
+    [OItem (TStart 129) 0; OItem (TElem 16641 (VI 0)) 2; OItem (TEnd 129) 0] ++ [OErr (RIo 9)] /\
+  p_run c doc [RAll] =
+    [OItem (TStart 129) 0; OItem (TElem 16641 (VI 0)) 2; OItem (TEnd 129) 0] ++
+    [OItem (TStart 129) 5; OItem (TElem 16641 (VI 7)) 7; OItem (TEnd 129) 5; ONone] /\
+  run_reader cb 65536 [Chunk 18; Fail 9] doc [RAll] = [OItem (TFull 129 [TElem 16641 (VI 0)]) 0] ++ [OErr (RIo 9)] /\
+  p_run cb doc [RAll] = [OItem (TFull 129 [TElem 16641 (VI 0)]) 0] ++ [OItem (TFull 129 [TElem 16641 (VI 7)]) 5; ONone].
+Proof. vm_compute. repeat split; reflexivity. Qed.
